@@ -4,3 +4,4 @@ import ThriftVerif.Facts.ExpectSites
 #print axioms ThriftVerif.Properties.C10.merge_conflict_order_irrelevant
 #print axioms ThriftVerif.Properties.C10.merge_result_order_irrelevant
 #print axioms ThriftVerif.Facts.ExpectSites.sites_classified
+#print axioms ThriftVerif.Facts.ExpectSites.walk_order_fixed
